@@ -276,7 +276,7 @@ def mentions_units(goal):
     except TypeError:
         return []
     for g in plain:
-        walk(g.goal if isinstance(g, Via) else g)
+        walk(z3.simplify(g.goal if isinstance(g, Via) else g))
     for q in qs:
         walk(q._frozen)
     return sorted(found)
